@@ -21,6 +21,8 @@ theorem step_oom_atomic (op : Op) (o o' : Oracle) (s s' : St) (hop : op.atomic =
   case freeFixup => exact freeFixup_oom _ _ _ _ h
   case addAddr a => simp [Op.atomic] at hop
   case emit a b => exact emit_oom _ _ _ _ _ _ h
+  case inst a b => exact inst_oom _ _ _ _ _ _ h
+  case jmpf a => exact jmpf_oom _ _ _ _ _ h
   case vappend x => exact vappend_oom _ _ _ _ _ h
   case vreserve n => exact vreserve_oom _ _ _ _ _ h
   case sappend n c => exact sappend_oom _ _ _ _ _ _ h
